@@ -190,6 +190,38 @@ theorem history_independent_counterexample :
     r2.err = none ∧ r2.report.map (·.body) = some [7] ∧ cold.report.map (·.body) = some [] := by
   decide
 
+/-! ## The by-design exception: a scanner that cannot reach the network -/
+
+namespace Witness
+/-- Package scanner `n` finds items 1 and 2 in every layer; while the network
+    is down its Scan returns item 1 together with a `*net.AddrError`, which
+    `result.Do` swallows: for the indexer the scanner found item 1. -/
+def semNet (down : Bool) : Sem :=
+  { scan := fun s _ => if s.kind = .pkg then (if down then [⟨.pkg, 1⟩] else [⟨.pkg, 1⟩, ⟨.pkg, 2⟩]) else []
+    real := fun _ => false
+    coal := fun _ arts => arts.flatMap (·.pkgs)
+    merge := fun bs => bs.flatten }
+def cfgN : Cfg := [{ ps := [⟨"n", "1", .pkg⟩], ds := [], rs := [], fs := [] }]
+end Witness
+
+/-- `result.Do` returns nil for a scanner error that is a `*net.AddrError`
+    ("scanner not able to access resources"), and `scanLayer` then stores what
+    the scanner returned and records the layer as scanned. So what a scanner
+    finds is a function of (scanner, layer) only as long as the scanner's
+    access to the network does not change: index [1] while it is down, then
+    again after it came back: the second call returns the report without item
+    2, a cold run returns it. Every theorem above is for one `Sem`; this is the
+    one way the code lets the semantics change under a fixed scanner version,
+    and it is by design. Any other scanner error fails the Index call
+    (C07 `failure_reported_partial`). -/
+theorem addr_error_history_dependence_by_design :
+    let r1 := index (semNet true) clean cfgN [1] {} false
+    let r2 := index (semNet false) clean cfgN [1] r1.st false
+    let cold := index (semNet false) clean cfgN [1] {} false
+    r1.err = none ∧ r1.report.map (·.success) = some true ∧
+    r2.err = none ∧ r2.report.map (·.body) = some [1] ∧ cold.report.map (·.body) = some [1, 2] := by
+  decide
+
 /-! ## The state token -/
 
 open StateToken in
